@@ -458,6 +458,7 @@ func c09Root(p *Prog, r *Report) {
 		return
 	}
 	var def, capE, flE, qFloor, wurz *Event
+	var wurmCaps []*Event
 	for _, e := range x.Events {
 		if e.Kind != "assign" {
 			continue
@@ -465,7 +466,10 @@ func c09Root(p *Prog, r *Report) {
 		if e.Local != nil && e.Local.Name() == "WURM" {
 			switch {
 			case isCapStore(e):
-				capE = e
+				wurmCaps = append(wurmCaps, e)
+				if capE == nil || stripVersions(e.Val).Equal(cellP("GlobalVarsMain.N")) {
+					capE = e
+				}
 			case isFloorStore(e):
 				flE = e
 			default:
@@ -488,6 +492,17 @@ func c09Root(p *Prog, r *Report) {
 	} else {
 		ok := stripVersions(capE.Val).Equal(cellP("GlobalVarsMain.N")) && capE.Seq > def.Seq && def.Val.MentionsRoot("GlobalVarsMain.WURZMAX")
 		r.Ob("WURM:cap", p.Pos(capE.Pos), ok, fmt.Sprintf("WURM = %s, then capped at %s", clip(def.Val.String(), 80), capE.Val))
+	}
+	// the soil's own root limit: the crop factor (crop depth / 11 dm reference) exceeds 1 for deep-rooting crops, so
+	// the scaled limit stays below the soil's limit only if it is capped at it as well
+	if def != nil {
+		soilCap := false
+		for _, c := range wurmCaps {
+			if c.Seq > def.Seq && stripVersions(c.Val).Equal(cellP("GlobalVarsMain.WURZMAX")) {
+				soilCap = true
+			}
+		}
+		r.Ob("WURM:soil-limit", p.Pos(def.Pos), soilCap, fmt.Sprintf("WURM = %s is capped at the soil's root limit after scaling: %v — a crop factor above 1 (depth factor above the 11 dm reference: 12 for winter wheat and rape, 14/16 for sugar beet) lets the rooting depth exceed the root limit the soil file gives", clip(def.Val.String(), 80), soilCap))
 	}
 	if flE != nil {
 		c, isC := flE.Val.ConstInt()
